@@ -49,7 +49,9 @@ impl Stats {
         self.distinct.extend(o.distinct);
         self.states.extend(o.states);
         for s in o.samples {
-            if self.samples.len() < 6 {
+            if s.get("full_plan_of_run_0").is_some() {
+                self.samples.insert(0, s);
+            } else if self.samples.len() < 6 {
                 self.samples.push(s);
             }
         }
